@@ -171,6 +171,8 @@ func init() {
 }
 
 func runC19(c *core.Ctx) {
+	c.Rule("ENDFLUSH", "the end-of-stream flush bound is above every event time")
+	checkFlushBound(c, "ENDFLUSH")
 	ids := typeIDs(c.Prog)
 	c.Rule("JOINWM", "joins forward min(left,right) only when it advances, after flushing up to it")
 	c.Rule("ORD2", "final flush before the successful return")
